@@ -18,7 +18,7 @@ Vars(k) ==
     [] k = "mpls" -> {"bos", "nobos", "mc"}
     [] k = "arp"  -> {"req", "rep", "rreq"}
     [] k = "ip4"  -> {"plain", "opts", "frag"}
-    [] k = "ip6"  -> {"plain", "hbh", "rt", "dst", "frag", "hbhdst", "nonext"}
+    [] k = "ip6"  -> {"plain", "hbh", "rt", "dst", "frag", "hbhdst", "nonext", "dstx20"}
     [] k = "udp"  -> {"-"}
     [] k = "tcp"  -> {"plain", "eol", "opts", "sack", "mpcap", "mpjoin", "mpdss", "unk", "unkmax"}
     [] k = "echo" -> {"req", "rep"}
@@ -126,7 +126,10 @@ HLen(l) ==
   CASE k = "eth" -> 14 [] k = "vlan" -> 4 [] k = "mpls" -> 4 [] k = "arp" -> 28
     [] k = "llc" -> (CASE v = "u" -> 3 [] v = "i" -> 4 [] OTHER -> 8)
     [] k = "ip4" -> IF v = "opts" THEN 24 ELSE 20
-    [] k = "ip6" -> (CASE v \in {"plain", "nonext"} -> 40 [] v = "hbhdst" -> 56 [] OTHER -> 48)
+    [] k = "ip6" -> (CASE v \in {"plain", "nonext"} -> 40 [] v = "hbhdst" -> 56
+                       [] v = "dstx20" -> 200 [] v = "dstx180" -> 1480        \* chains of 20 / 180 /
+                       [] v = "dstx1100" -> 8840 [] v = "dstx8000" -> 64040   \* 1100 / 8000 headers
+                       [] OTHER -> 48)
     [] k = "udp" -> 8
     [] k = "tcp" -> (CASE v = "plain" -> 20 [] v \in {"eol", "unk"} -> 24
                        [] v \in {"opts", "mpdss"} -> 40 [] v = "unkmax" -> 60 [] OTHER -> 32)
@@ -161,18 +164,54 @@ Covered(l) == l.k \in {"ip4", "ip6", "udp", "tcp", "icmp", "icmp6", "igmp"} \/ l
 
 RECURSIVE OffR(_, _)
 OffR(st, i) == IF i <= 1 THEN 0 ELSE OffR(st, i - 1) + HLen(st[i - 1])
+OffsOf(st)  == [i \in 1..Len(st) + 1 |-> OffR(st, i)]       \* offset of layer i (Len+1: end of the headers)
+HlsOf(st)   == [i \in 1..Len(st) |-> HLen(st[i])]
+NeedsOf(st) == [i \in 1..Len(st) |-> Need(st[i])]
+LastOrigOf(st) == LET S == {0} \cup {j \in 1..Len(st) : st[j].v = "orig"} IN CHOOSE x \in S : \A y \in S : y <= x
 
-\* a frame: the stack, the payload and padding lengths, and (computed once) the layout
-Frame(st, plen, pad) ==
-  [st |-> st, plen |-> plen, pad |-> pad,
-   off  |-> [i \in 1..Len(st) + 1 |-> OffR(st, i)],      \* offset of layer i (Len+1: of the payload)
-   hl   |-> [i \in 1..Len(st) |-> HLen(st[i])],
-   need |-> [i \in 1..Len(st) |-> Need(st[i])]]
-Off(f, i) == f.off[i]
-HdrEnd(f) == f.off[Len(f.st) + 1]
+(* A frame: the header stack  st \o unit^n \o post  (an explicit prefix, a group of layers repeated  *)
+(* n times - nesting depth -, an explicit tail), the payload and padding lengths and, computed once, *)
+(* the layout of the three pieces.  Ordinary frames have n = 0; deeply nested ones are never spelt  *)
+(* out: layer i and its offset are found by arithmetic (LayerAt, OffAt), so a 64 kB frame of 16000  *)
+(* nested tags costs as much as a three-layer one.  unit and post never contain "orig" layers.      *)
+DeepFrame(st, unit, n, post, plen, pad) ==
+  [st |-> st, unit |-> unit, n |-> n, post |-> post, plen |-> plen, pad |-> pad,
+   off |-> OffsOf(st), hl |-> HlsOf(st), need |-> NeedsOf(st),
+   uoff |-> OffsOf(unit), uhl |-> HlsOf(unit), uneed |-> NeedsOf(unit),
+   poff |-> OffsOf(post), phl |-> HlsOf(post), pneed |-> NeedsOf(post),
+   lastOrig |-> LastOrigOf(st)]
+Frame(st, plen, pad) == DeepFrame(st, <<>>, 0, <<>>, plen, pad)
+
+NPre(f)  == Len(f.st)
+NRep(f)  == f.n * Len(f.unit)
+NL(f)    == NPre(f) + NRep(f) + Len(f.post)                 \* number of layers
+ULen(f)  == f.uoff[Len(f.unit) + 1]                         \* bytes of one repetition
+LayerAt(f, i) ==
+  IF i <= NPre(f) THEN f.st[i]
+  ELSE IF i <= NPre(f) + NRep(f) THEN f.unit[((i - NPre(f) - 1) % Len(f.unit)) + 1]
+  ELSE f.post[i - NPre(f) - NRep(f)]
+HlAt(f, i) ==
+  IF i <= NPre(f) THEN f.hl[i]
+  ELSE IF i <= NPre(f) + NRep(f) THEN f.uhl[((i - NPre(f) - 1) % Len(f.unit)) + 1]
+  ELSE f.phl[i - NPre(f) - NRep(f)]
+NeedAt(f, i) ==
+  IF i <= NPre(f) THEN f.need[i]
+  ELSE IF i <= NPre(f) + NRep(f) THEN f.uneed[((i - NPre(f) - 1) % Len(f.unit)) + 1]
+  ELSE f.pneed[i - NPre(f) - NRep(f)]
+\* offset of layer i, i \in 1..NL+1 (NL+1: of the payload)
+OffAt(f, i) ==
+  IF i <= NPre(f) + 1 THEN f.off[i]
+  ELSE IF i <= NPre(f) + NRep(f) + 1
+       THEN LET j == i - NPre(f) - 1 IN
+            f.off[NPre(f) + 1] + (j \div Len(f.unit)) * ULen(f) + f.uoff[(j % Len(f.unit)) + 1]
+  ELSE f.off[NPre(f) + 1] + f.n * ULen(f) + f.poff[i - NPre(f) - NRep(f)]
+Off(f, i) == OffAt(f, i)
+HdrEnd(f) == OffAt(f, NL(f) + 1)
 DEnd(f)   == HdrEnd(f) + f.plen                  \* end of the outermost datagram
 Total(f)  == DEnd(f) + f.pad
+LeafF(f)  == LET m == NL(f) IN Leaf(IF m >= 2 THEN <<LayerAt(f, m - 1), LayerAt(f, m)>> ELSE <<LayerAt(f, m)>>)
 
+\* ordinary frames only (n = 0, no tail)
 Lay(f) == [j \in 1..Len(f.st) |-> [k |-> f.st[j].k, v |-> f.st[j].v, off |-> f.off[j], hlen |-> f.hl[j]]]
 
 =============================================================================
